@@ -23,15 +23,16 @@ def main():
     replay = json.load(open(a.replay)) if a.replay else None
     ctx = core.Ctx(a.pid, a.tier, seed, replay)
     pre_fail = []
-    if a.pid == 'C03':
+    GEN = {'C03': ('gen_interp', 'Interp'), 'C06': ('gen_infer', 'Infer'), 'C07': ('gen_infer', 'Infer')}
+    if a.pid in GEN:
         # the generated part of the model is re-derived from the current source before anything is built
         try:
-            from harness import gen_interp
-            changed, _ = gen_interp.regenerate()
-            if changed: print('C03: lean/PyhfGen/Interp.lean regenerated from the interpolator sources (content changed)')
+            gen = importlib.import_module('harness.' + GEN[a.pid][0])
+            changed, _ = gen.regenerate()
+            if changed: print(f'{a.pid}: lean/PyhfGen/{GEN[a.pid][1]}.lean regenerated from the current sources (content changed)')
         except Exception as e:  # noqa — the code left the subset the translator handles
             import traceback
-            pre_fail.append({'kind': 'translator', 'what': f'symbolic execution of the interpolator sources failed: {type(e).__name__}: {str(e)[:200]}',
+            pre_fail.append({'kind': 'translator', 'what': f'symbolic execution of the current sources failed: {type(e).__name__}: {str(e)[:200]}',
                              'log_tail': traceback.format_exc()[-800:]})
     gate = core.proof_gate(a.pid, thorough=(a.tier == 'thorough'))
     gate['failures'] = pre_fail + gate['failures']
